@@ -60,7 +60,7 @@ pub fn show_lexemes(lexer: &dyn Lexer<LT>) -> String {
     for r in lexer.iter() {
         match r {
             Ok(l) => s.push_str(&format!("{}@{}+{} ", l.tok_id(), l.span().start(), l.span().len())),
-            Err(e) => s.push_str(&format!("ERR@{} ", e.span().start())),
+            Err(e) => s.push_str(&format!("ERR@{}/{:?} ", e.span().start(), e.lexing_state())),
         }
     }
     s
